@@ -115,6 +115,79 @@ Theorem C08_kf_steps_shape_ok m (F Q : M O n n) (H : M O m n) (R : M O m m) (y :
 Proof. exact (conj (kf_pred_gstep_shape O n F Q) (kf_corr_gstep_shape O n m H R y v)). Qed.
 End C08_structure.
 
+(* ------------------------------------------------------------------ lifetime (World C)
+   The random source, the validity flag and the likelihood model of a GPFCorrection across
+   constructions, move constructions, move assignments, corrections, draws and destructions
+   (rs_* in C08_Model.v; rs_run true = the code at HEAD).  Reproduced on the library by the
+   harness kinds gpf_fresh / gpf_moved. *)
+(* a live GPFCorrection draws from its own generator, whatever was moved where before *)
+Theorem C08_draws_from_own_generator ops id o :
+  rs_find (rs_run true ops) id = Some o -> rs_alive o = true ->
+  rs_draw_source (rs_run true ops) id = Some id.
+Proof. exact (draws_from_own_generator ops id o). Qed.
+
+(* ... and a draw advances the generator of the drawing object only: objects moved from a
+   common source produce independent, seed-determined sequences *)
+Theorem C08_draw_touches_own_generator_only ops id j :
+  j <> id -> rs_find (rs_step true (rs_run true ops) (RsDraw id)) j = rs_find (rs_run true ops) j.
+Proof. exact (draw_touches_own_generator_only ops id j). Qed.
+
+(* the move constructor continues the source's stream on the new object's own copy and
+   hands over the likelihood model *)
+Theorem C08_move_construct st dst src o :
+  rs_find st src = Some o ->
+  rs_find (rs_step true st (RsMove dst src)) dst =
+  Some (mkRsObj dst true dst (rs_valid o) (rs_lik o) (rs_gen o)).
+Proof. exact (move_construct_result st dst src o). Qed.
+
+(* the move assignment transfers the likelihood model and the generator state, the
+   destination reads its own generator, the source is left without a likelihood model *)
+Theorem C08_move_assign_transfers_likelihood_model st dst src o d :
+  dst <> src -> rs_find st src = Some o -> rs_find st dst = Some d ->
+  (exists d', rs_find (rs_step true st (RsMoveAssign dst src)) dst = Some d' /\ rs_lik d' = rs_lik o /\
+              rs_gen d' = rs_gen o /\ rs_target d' = dst /\ rs_valid d' = rs_valid o) /\
+  (exists s', rs_find (rs_step true st (RsMoveAssign dst src)) src = Some s' /\ rs_lik s' = None).
+Proof. exact (move_assign_transfers st dst src o d). Qed.
+
+(* getLikelihood() never reads an unwritten flag; a fresh object reports (false, ...) *)
+Theorem C08_fresh_reports_invalid ops id seed k :
+  rs_reported_valid (rs_run true (ops ++ [RsConstruct id seed k])) id = Some false.
+Proof. exact (fresh_reports_invalid ops id seed k). Qed.
+
+Theorem C08_reported_validity_defined ops id o :
+  rs_find (rs_run true ops) id = Some o -> rs_reported_valid (rs_run true ops) id <> None.
+Proof. exact (reported_valid_defined ops id o). Qed.
+
+(* ---- regression: the code before the fix commits d193577 / 57c1b76 (rs_run false) violated
+   each of these statements; the witnesses are what the harness kinds replay *)
+Theorem C08_pre_fix_draws_from_own_generator_refuted :
+  exists ops id, rs_find (rs_run false ops) id <> None /\
+                 (forall o, rs_find (rs_run false ops) id = Some o -> rs_alive o = true) /\
+                 rs_draw_source (rs_run false ops) id <> Some id /\
+                 rs_draw_source (rs_run false ops) id = None.
+Proof. exact pre_fix_draws_from_own_generator_refuted. Qed.
+
+Theorem C08_pre_fix_fresh_likelihood_invalid_refuted :
+  exists ops id, rs_draw_source (rs_run false ops) id = Some id /\
+                 rs_reported_valid (rs_run false ops) id <> Some false /\
+                 rs_reported_valid (rs_run false ops) id = None.
+Proof. exact pre_fix_fresh_likelihood_invalid_refuted. Qed.
+
+(* b = move(a); a = move(c); one draw of b -- every object alive: before the fix b read a's
+   generator (by then a copy of c's) and kept its old likelihood model; at HEAD it reads its own *)
+Theorem C08_pre_fix_move_assign_refuted :
+  let ops := [RsConstruct 0 1 10; RsConstruct 1 2 11; RsMoveAssign 1 0;
+              RsConstruct 2 3 12; RsMoveAssign 0 2; RsDraw 1] in
+  option_map rs_lik (rs_find (rs_run false ops) 1) = Some (Some 11) /\
+  option_map rs_gen (rs_find (rs_run false ops) 1) = Some (1, 0) /\
+  option_map rs_gen (rs_find (rs_run false ops) 0) = Some (3, 1) /\
+  rs_draw_source (rs_run false ops) 1 = Some 0 /\
+  option_map rs_lik (rs_find (rs_run true ops) 1) = Some (Some 10) /\
+  option_map rs_gen (rs_find (rs_run true ops) 1) = Some (1, 1) /\
+  option_map rs_gen (rs_find (rs_run true ops) 0) = Some (3, 0) /\
+  rs_draw_source (rs_run true ops) 1 = Some 1.
+Proof. exact pre_fix_move_assign_refuted. Qed.
+
 (* ------------------------------------------------------------------ Part 2 *)
 Section C08_reals.
 Local Open Scope R_scope.
@@ -168,6 +241,19 @@ Theorem C08_shipped_models_nonneg
 Proof.
   exact (fun Hs => conj (gauss_lik_nonneg sq eg n m scale H R0 y v xs i Hs) (lin_trans_nonneg sq eg n F Q ps cs i)).
 Qed.
+(* histories: along a history whose corrections are all valid, log-weight i is the initial
+   one plus the sum of the per-step increments ln(l+eps) + ln(t+eps) - ln(q+eps)
+   (step_incr spells the increment of one step out; shape guard derived as in C08_multi_step) *)
+Theorem C08_weights_telescope
+  (sq eg : nat -> lmx C08_ROps -> lmx C08_ROps) (n N : nat)
+  (h : list (step_in (ListMat C08_ROps sq eg) n)) (st : fstate (ListMat C08_ROps sq eg) n) (i : nat) :
+  let O := ListMat C08_ROps sq eg in
+  length (fs_pred st) = N -> length (fs_corr st) = N ->
+  Forall (fun s => shape_ok O n (si_gp s) /\ shape_ok O n (si_gc s)) h ->
+  all_valid sq eg n st h -> (i < N)%nat ->
+  plw (nth i (fs_corr (gpf_run st h)) (dparticle O n)) =
+  plw (nth i (fs_corr st) (dparticle O n)) + incr_sum sq eg n st h i.
+Proof. exact (weights_telescope sq eg n N h st i). Qed.
 End C08_reals.
 
 (* ------------------------------------------------------------------ Part 3 *)
@@ -224,6 +310,22 @@ Theorem C08_kf_conjugate_beliefs (m : nat) (H : M O m n) (R : M O m m) (y : M O 
   List.map pbelief (cr_particles (gpf_correct (kf_corr_gstep true H R y) lik trans zs pred old)) =
   List.map (fun p => info_posterior H R y (pbelief p)) pred.
 Proof. exact: kf_wrapped_beliefs. Qed.
+
+(* ... and the Mahalanobis identity holds for every particle it returns, the SPD guard
+   being derived from SPD R and SPD predicted covariances (only the contract of the
+   square-root oracle on the corrected covariance remains a premise) *)
+Theorem C08_kf_mahalanobis (m : nat) (H : M O m n) (R : M O m m) (y : M O m 1)
+  (spdR : spd (R : 'M[F]_m)) lik trans (zs : list (M O n 1)) (pred old : pset O n) (i : nat) d :
+  fst (lik (gpf_drawn (kf_corr_gstep true H R y) zs pred old)) = true ->
+  length old = length pred ->
+  List.Forall (fun p : particle O n => spd (pcov p : 'M[F]_n)) pred ->
+  (i < length pred)%coq_nat ->
+  let p := List.nth i (cr_particles (gpf_correct (kf_corr_gstep true H R y) lik trans zs pred old)) d in
+  (msqrt (pcov p) : 'M[F]_n) *m (msqrt (pcov p) : 'M[F]_n)^T = pcov p ->
+  spd (pcov p : 'M[F]_n) /\
+  quadform (O:=O) (msub (pstate p) (pmean p)) (minv (pcov p)) =
+  quadform (O:=O) (List.nth i zs (mzero n 1)) (mid n).
+Proof. exact: kf_wrapped_mahalanobis. Qed.
 
 End C08_mathcomp.
 
@@ -287,11 +389,22 @@ Print Assumptions C08_correct_count.
 Print Assumptions C08_multi_step.
 Print Assumptions C08_trace_is_run.
 Print Assumptions C08_kf_steps_shape_ok.
+Print Assumptions C08_draws_from_own_generator.
+Print Assumptions C08_draw_touches_own_generator_only.
+Print Assumptions C08_move_construct.
+Print Assumptions C08_move_assign_transfers_likelihood_model.
+Print Assumptions C08_fresh_reports_invalid.
+Print Assumptions C08_reported_validity_defined.
+Print Assumptions C08_pre_fix_draws_from_own_generator_refuted.
+Print Assumptions C08_pre_fix_fresh_likelihood_invalid_refuted.
+Print Assumptions C08_pre_fix_move_assign_refuted.
 Print Assumptions C08_weight_log_args_positive.
 Print Assumptions C08_weight_product_form.
 Print Assumptions C08_step_weight_product_form.
 Print Assumptions C08_shipped_models_nonneg.
+Print Assumptions C08_weights_telescope.
 Print Assumptions C08_mahalanobis.
 Print Assumptions C08_correct_mahalanobis.
 Print Assumptions C08_proposal_log_density.
 Print Assumptions C08_kf_conjugate_beliefs.
+Print Assumptions C08_kf_mahalanobis.
